@@ -403,6 +403,64 @@ func c22(repo string, out *fg.Out) error {
 		return fmt.Errorf("no length checks found")
 	}
 
+	// ---- Restore: snapshot map fields installed WITHOUT a fresh map / nil guard (`f.x = snapshot.Y`)
+	// must not be `omitempty`: an empty map would be omitted by Persist, decode to nil, and the next
+	// write to it would panic inside Apply.
+	type snapField struct {
+		isMap, omit bool
+	}
+	snapFields := map[string]snapField{}
+	for _, f := range files {
+		for _, d := range f.AST.Decls {
+			gd, ok := d.(*ast.GenDecl)
+			if !ok || gd.Tok != token.TYPE {
+				continue
+			}
+			for _, sp := range gd.Specs {
+				ts := sp.(*ast.TypeSpec)
+				st, ok := ts.Type.(*ast.StructType)
+				if !ok || ts.Name.Name != "FSMSnapshot" {
+					continue
+				}
+				for _, fl := range st.Fields.List {
+					_, isMap := fl.Type.(*ast.MapType)
+					tag := ""
+					if fl.Tag != nil {
+						tag = fl.Tag.Value
+					}
+					for _, n := range fl.Names {
+						snapFields[n.Name] = snapField{isMap, strings.Contains(tag, "omitempty")}
+					}
+				}
+			}
+		}
+	}
+	if len(snapFields) == 0 {
+		return fmt.Errorf("type FSMSnapshot struct not found")
+	}
+	rf2, rd2 := fg.FindFunc(files, "ClusterFSM", "Restore")
+	if rd2 == nil {
+		return fmt.Errorf("ClusterFSM.Restore not found")
+	}
+	type unguarded struct {
+		Field string
+		Omit  bool
+	}
+	var unguardedMaps []unguarded
+	ast.Inspect(rd2.Body, func(n ast.Node) bool {
+		as, ok := n.(*ast.AssignStmt)
+		if !ok || len(as.Lhs) != 1 || len(as.Rhs) != 1 {
+			return true
+		}
+		l, r := rf2.Text(as.Lhs[0]), rf2.Text(as.Rhs[0])
+		if strings.HasPrefix(l, "f.") && strings.HasPrefix(r, "snapshot.") {
+			if sf, ok := snapFields[strings.TrimPrefix(r, "snapshot.")]; ok && sf.isMap {
+				unguardedMaps = append(unguardedMaps, unguarded{strings.TrimPrefix(r, "snapshot."), sf.omit})
+			}
+		}
+		return true
+	})
+
 	w := &out.Lean
 	list := func(xs []string) string {
 		q := make([]string, len(xs))
@@ -465,6 +523,16 @@ func c22(repo string, out *fg.Out) error {
 	fmt.Fprintf(w, "]\n")
 	out.JSON["snapshot_copies"] = snapCopies
 	out.JSON["length_checks"] = lenChecks
+	fmt.Fprintf(w, "/-- snapshot map fields that `Restore` installs directly (`f.x = snapshot.Y`, no fresh map): (field, tagged omitempty) -/\n")
+	fmt.Fprintf(w, "def restoreUnguardedMaps : List (String × Bool) := [")
+	for i, u := range unguardedMaps {
+		if i > 0 {
+			fmt.Fprintf(w, ", ")
+		}
+		fmt.Fprintf(w, "(%s, %v)", fg.LeanStr(u.Field), u.Omit)
+	}
+	fmt.Fprintf(w, "]\n")
+	out.JSON["restore_unguarded_maps"] = unguardedMaps
 	fmt.Fprintf(w, "def updateFileIndexesEveryDatabase : Bool := %v\n", updateFileIndexesAll)
 	fmt.Fprintf(w, "def updateTokenValidatesName : Bool := %v\n", updateTokenValidatesName)
 	fmt.Fprintf(w, "end Arc.Generated.C22\n")
